@@ -99,6 +99,7 @@ type H struct {
 	dead       []*App
 	clis       []*App
 	daemons    map[string]*daemon
+	applyEvery int // daemon mode: the replicas' SQL threads apply every applyEvery-th second (0: every 2nd)
 	allDaemons []*daemon
 }
 
